@@ -96,6 +96,45 @@ Theorem C18_never_overwritten_listed :
 Proof. exact never_overwritten_listed_on_disk. Qed.
 Print Assumptions C18_never_overwritten_listed.
 
+(* Backup names are strings as the API / CLI accept them; every path is built with
+   realpath(join(backups_path, name, ...)), so these spellings resolve to the same
+   directory as [b] (the model's backup_dir is backups_path ++ key_path name).
+   Covered: every spelling resolving to one directory entry; nested names, ".." and
+   absolute names are outside the model. *)
+Theorem C18_alias_spellings :
+  forall b : str,
+    key_path (b ++ [ch_slash]) = key_path b /\
+    key_path (ch_dot :: ch_slash :: b) = key_path b /\
+    key_path (b ++ [ch_slash; ch_dot]) = key_path b /\
+    key_path (b ++ [ch_slash; ch_slash]) = key_path b /\
+    key_path (ch_dot :: ch_slash :: b ++ [ch_slash; ch_slash; ch_dot; ch_slash]) = key_path b.
+Proof. exact alias_spellings. Qed.
+Print Assumptions C18_alias_spellings.
+
+(* Never overwritten under ANY spelling: a name b' that resolves to the directory
+   of a backup [b] which a fresh manager lists is refused without any effect, for
+   any manager object.  (C18_never_overwritten itself is already about resolution:
+   its hypothesis is that the RESOLVED path backup_dir b' exists.) *)
+Theorem C18_never_overwritten_alias :
+  forall (m : mgr) (f : fs) files (b b' : name) ts mdisk rec,
+    key_path b' = key_path b ->
+    get_backups f = Ok mdisk -> mgr_get mdisk b = Some rec ->
+    create_backup true m f files b' ts = (f, m, Ok false).
+Proof. exact never_overwritten_alias. Qed.
+Print Assumptions C18_never_overwritten_alias.
+
+(* ... and after any crash of create_backup b, a later create_backup under any
+   spelling of the same directory refuses (or nothing had happened yet). *)
+Theorem C18_crash_then_create_alias :
+  forall (b b' : name) (files : list path) (ts : str) (f0 : fs),
+    key_path b' = key_path b ->
+    (forall p, under (backup_dir b) p = true -> lookup f0 p = None) ->
+    forall (i : nat) (k : option nat) (m : mgr) files' ts',
+      let fc := crash f0 (create_effects b files ts) i k in
+      fc = f0 \/ create_backup true m fc files' b' ts' = (fc, m, Ok false).
+Proof. exact crash_then_create_alias. Qed.
+Print Assumptions C18_crash_then_create_alias.
+
 (* A crash of create_backup followed by a later create_backup of the same name
    (repaired code, any manager object, any new selection): either the crash
    happened before the first effect (the tree is the untouched initial one), or
@@ -165,6 +204,14 @@ Example C18_nonvacuous :
   (get_backups (crash ex_f0 (create_effects ex_b ex_files ex_ts) 5 (Some 20)) = Exn ValueError /\
    get_backups (crash ex_f0 (create_effects ex_b ex_files ex_ts) 4 (Some 0)) = Exn HedFileError).
 Proof. exact ex_nonvacuous. Qed.
+
+(* "b1/" on the witness tree: refused by the code under test; a guard that does not
+   resolve the name (here: the pre-fix program) overwrites the backup *)
+Example C18_alias_refused_witness :
+  create_backup true [] ex_f2 ex_files ex_b_slash ex_ts = (ex_f2, [], Ok false) /\
+  (exists f' m', create_backup false [] ex_f2 ex_files ex_b_slash ex_ts = (f', m', Ok true) /\
+     read f' (get_backup_path ex_b [ex_sub; ex_a]) <> read ex_f2 (get_backup_path ex_b [ex_sub; ex_a])).
+Proof. exact ex_alias_refused. Qed.
 
 (* the repaired code refuses on the witness of C18-F1 *)
 Example C18_fixed_refuses_witness :
